@@ -452,6 +452,9 @@ func (w *Worker) runFrame(f *Frame) {
 			case *ssa.If:
 				cond := w.get(f, in.Cond).(*Term)
 				if !cond.IsConst() {
+					cond = w.simp(cond)
+				}
+				if !cond.IsConst() {
 					if j := w.tryMerge(f, in, cond); j != nil {
 						f.prev = nil
 						f.block = j
@@ -523,7 +526,7 @@ func (w *Worker) runFrame(f *Frame) {
 			}
 			if traceFn != "" && strings.Contains(f.fn.String(), traceFn) {
 				if v, ok := in.(ssa.Value); ok {
-					fmt.Fprintf(os.Stderr, "TRACE %s: %s = %s  => %s\n", f.fn.Name(), v.Name(), in.String(), trunc(valueString(w.get(f, v)), 200))
+					fmt.Fprintf(os.Stderr, "TRACE %s: %s = %s  => %s\n", f.fn.Name(), v.Name(), in.String(), trunc(valueString(w.get(f, v)), 6000))
 				} else {
 					fmt.Fprintf(os.Stderr, "TRACE %s: %s\n", f.fn.Name(), in.String())
 				}
@@ -1050,3 +1053,9 @@ func (w *Worker) globalStore(name string) {
 }
 
 var traceFn = os.Getenv("VCHECK_TRACE")
+
+func init() {
+	if d := os.Getenv("VCHECK_TRACE_DEPTH"); d != "" {
+		fmt.Sscanf(d, "%d", &termPrintDepth)
+	}
+}
